@@ -3,7 +3,9 @@ import argparse, os, sys
 sys.path.insert(0, os.path.dirname(os.path.abspath(__file__)))
 import common
 
-FAMILY = {"C01": "check_sync", "C10": "check_sync", "C05": "check_sync", "C16": "check_sync"}
+FAMILY = {"C01": "check_sync", "C10": "check_sync", "C05": "check_sync", "C16": "check_sync",
+          "C02": "check_async", "C03": "check_async", "C04": "check_async", "C08": "check_async",
+          "C13": "check_async", "C14": "check_async"}
 
 ap = argparse.ArgumentParser()
 ap.add_argument("prop")
